@@ -210,7 +210,8 @@ def run_main(ctx):
             # ECOS' reduced-accuracy termination ("Close to optimal", exit flag 10): rsome accepts it as a solution, but its value
             # is not accurate enough to compare optima (seen: dual of a perspective-exp program, 1.67 reported for 2.0)
             ctx.count('search:inaccurate-solver-status'); continue
-        tol = (1e-6 if not conic else 1e-4) * (1 + abs(sp_.objval))
+        # (ECOS on exponential cones: optimal values accurate to a few 1e-4 only - seen 5.2e-4 on a value of 1.5 in a thorough run)
+        tol = (1e-6 if not conic else (1e-3 if pj['xmat'] else 1e-4)) * (1 + abs(sp_.objval))
         if abs(sp_.objval + sd.objval) > tol:
             ctx.hit('dual-gap:' + ','.join(_classify(pj, dj) or ['lp']),
                     {"primal_opt": float(sp_.objval), "dual_opt": float(sd.objval)}, case)
